@@ -24,8 +24,111 @@ func ordered(evs []ev) []string {
 	return out
 }
 
+// returnsOf lists the return statements of a body in source order, each with the conditions it sits under
+// ("if" conditions incl. their init statement, select / switch cases), e.g. "case <-ctx.Done() -> return ctx.Err()"
+func returnsOf(f *lib.File, body ast.Node) []string {
+	var evs []ev
+	var walk func(n ast.Node, guard string)
+	add := func(g, x string) string {
+		if g == "" {
+			return x
+		}
+		return g + " / " + x
+	}
+	walk = func(n ast.Node, guard string) {
+		ast.Inspect(n, func(x ast.Node) bool {
+			switch st := x.(type) {
+			case *ast.FuncLit:
+				return false
+			case *ast.IfStmt:
+				c := f.Render(st.Cond)
+				if st.Init != nil {
+					c = f.Render(st.Init) + "; " + c
+				}
+				walk(st.Body, add(guard, c))
+				if st.Else != nil {
+					walk(st.Else, add(guard, "!("+c+")"))
+				}
+				return false
+			case *ast.CommClause:
+				c := "default"
+				if st.Comm != nil {
+					c = "case " + f.Render(st.Comm)
+				}
+				for _, b := range st.Body {
+					walk(b, add(guard, c))
+				}
+				return false
+			case *ast.ReturnStmt:
+				r := f.Render(st)
+				if i := strings.Index(r, "fmt.Errorf("); i >= 0 {
+					r = r[:i] + "fmt.Errorf(..)"
+				}
+				g := guard
+				if g != "" {
+					g += " -> "
+				}
+				evs = append(evs, ev{st.Pos(), g + r})
+			}
+			return true
+		})
+	}
+	walk(body, "")
+	return ordered(evs)
+}
+
+// callsTo renders every call whose callee ends with one of the suffixes, in source order
+func callsTo(f *lib.File, body ast.Node, suffixes ...string) []string {
+	var evs []ev
+	ast.Inspect(body, func(x ast.Node) bool {
+		if c, ok := x.(*ast.CallExpr); ok {
+			fn := f.Render(c.Fun)
+			for _, s := range suffixes {
+				if strings.HasSuffix(fn, s) {
+					evs = append(evs, ev{c.Pos(), f.Render(c)})
+				}
+			}
+		}
+		return true
+	})
+	return ordered(evs)
+}
+
 func main() {
 	lib.Main("C01", func(r lib.Repo, e *lib.Emitter) {
+		// ---- the store's Bulk handler chain
+		if f, err := r.Load("storeapi/grpc_bulk.go"); err != nil {
+			e.Missing("grpc_bulk.go", err)
+		} else {
+			if fd := f.Func("GrpcV1", "Bulk"); fd == nil {
+				e.Missing("grpcBulkReturns", "GrpcV1.Bulk not found")
+			} else {
+				e.Strs("grpcBulkReturns", returnsOf(f, fd.Body), "GrpcV1.Bulk: every return with the conditions it sits under")
+				e.Strs("grpcBulkCalls", callsTo(f, fd.Body, ".doBulk"), "GrpcV1.Bulk: the call of doBulk")
+			}
+			if fd := f.Func("GrpcV1", "doBulk"); fd == nil {
+				e.Missing("doBulkReturns", "GrpcV1.doBulk not found")
+			} else {
+				e.Strs("doBulkReturns", returnsOf(f, fd.Body), "GrpcV1.doBulk: every return with the conditions it sits under")
+				e.Strs("doBulkCalls", callsTo(f, fd.Body, ".fracManager.Append"), "GrpcV1.doBulk: what is handed to FracManager.Append")
+			}
+		}
+		if f, err := r.Load("fracmanager/fracmanager.go"); err != nil {
+			e.Missing("fracmanager.go", err)
+		} else if fd := f.Func("FracManager", "Append"); fd == nil {
+			e.Missing("fmAppendReturns", "FracManager.Append not found")
+		} else {
+			e.Strs("fmAppendReturns", returnsOf(f, fd.Body), "FracManager.Append: the ways out of the retry loop")
+		}
+		if f, err := r.Load("fracmanager/proxy_frac.go"); err != nil {
+			e.Missing("proxy_frac.go", err)
+		} else if fd := f.Func("proxyFrac", "Append"); fd == nil {
+			e.Missing("proxyAppendCalls", "proxyFrac.Append not found")
+		} else {
+			e.Strs("proxyAppendCalls", callsTo(f, fd.Body, "active.Append"), "proxyFrac.Append: what is handed to Active.Append")
+			e.Strs("proxyAppendReturns", returnsOf(f, fd.Body), "proxyFrac.Append: every return with the conditions it sits under")
+		}
+
 		// ---- header layout of a DocBlock
 		for _, c := range [][2]string{
 			{"offsetDocBlockCodec", "offCodec"}, {"offsetDocBlockLength", "offLen"}, {"offsetDocBlockRawLength", "offRaw"},
@@ -214,5 +317,5 @@ func main() {
 				e.Strs("truncateTailCalls", nil, "Active.truncateTail does not exist")
 			}
 		}
-	}, "disk/doc_block.go", "frac/active_writer.go", "frac/file_writer.go", "frac/active.go")
+	}, "disk/doc_block.go", "frac/active_writer.go", "frac/file_writer.go", "frac/active.go", "storeapi/grpc_bulk.go", "fracmanager/fracmanager.go", "fracmanager/proxy_frac.go")
 }
